@@ -20,36 +20,46 @@ Definition civil_chk (d : Z) : bool :=
 Definition ERA0 : Z := -719468.      (* 0000-03-01 *)
 Definition ERA : Z := 146097.
 
-(* days lo .. lo + n - 1 *)
-Fixpoint check_range (lo : Z) (n : nat) : bool :=
-  match n with O => true | S k => civil_chk lo && check_range (lo + 1) k end.
-
-Lemma check_range_ok n : forall lo d, check_range lo n = true -> lo <= d < lo + Z.of_nat n -> civil_chk d = true.
-Proof.
-  induction n as [|n IH]; intros lo d H Hd; [lia|].
-  cbn [check_range] in H. apply andb_prop in H as [H1 H2].
-  destruct (Z.eq_dec d lo) as [->|Hne]; [exact H1|].
-  apply (IH (lo + 1) d H2). lia.
-Qed.
-
-(* the era in 147 blocks of 1000 days (the last one runs 903 days into the next era, which is fine) *)
+(* The enumeration, generic in the check: inside the section the check is a variable, so no
+   conversion can ever start evaluating it on symbolic days. *)
 Definition blocks : list Z := map Z.of_nat (seq 0 147).
-Definition era_check : bool := forallb (fun blk => check_range (ERA0 + 1000 * blk) 1000) blocks.
 
-Lemma era_checked : era_check = true.
+Section Range.
+  Variable chk : Z -> bool.
+  (* days lo .. lo + n - 1 *)
+  Fixpoint check_range (lo : Z) (n : nat) : bool :=
+    match n with O => true | S k => chk lo && check_range (lo + 1) k end.
+
+  Lemma check_range_ok n : forall lo d N, check_range lo n = true -> N = Z.of_nat n -> lo <= d < lo + N -> chk d = true.
+  Proof.
+    induction n as [|n IH]; intros lo d N H -> Hd; [lia|].
+    cbn [check_range] in H. apply andb_prop in H as [H1 H2].
+    destruct (Z.eq_dec d lo) as [->|Hne]; [exact H1|].
+    apply (IH (lo + 1) d _ H2 eq_refl). lia.
+  Qed.
+
+  (* the era in 147 blocks of 1000 days (the last one runs 903 days into the next era, which is fine) *)
+  Definition era_check_for : bool := forallb (fun blk => check_range (ERA0 + 1000 * blk) 1000) blocks.
+
+  Lemma in_blocks blk : 0 <= blk < 147 -> In blk blocks.
+  Proof.
+    intros Hb. unfold blocks. apply in_map_iff. exists (Z.to_nat blk). split; [lia|]. apply in_seq. lia.
+  Qed.
+
+  Lemma era_day_ok_for d : era_check_for = true -> ERA0 <= d < ERA0 + ERA -> chk d = true.
+  Proof.
+    intros E H. unfold era_check_for in E. rewrite forallb_forall in E.
+    assert (Hin : In ((d - ERA0) / 1000) blocks) by (apply in_blocks; unfold ERA, ERA0 in *; lia).
+    apply (check_range_ok 1000 _ d 1000 (E _ Hin) eq_refl).
+    unfold ERA, ERA0 in *. lia.
+  Qed.
+End Range.
+
+Lemma era_checked : era_check_for civil_chk = true.
 Proof. vm_compute. reflexivity. Qed.
 
-Lemma era_day_ok d : ERA0 <= d < ERA0 + ERA -> civil_chk d = true.
-Proof.
-  intros H. pose proof era_checked as E. unfold era_check in E. rewrite forallb_forall in E.
-  set (blk := (d - ERA0) / 1000).
-  assert (Hb : 0 <= blk < 147) by (unfold blk, ERA, ERA0 in *; lia).
-  assert (Hin : In blk blocks).
-  { unfold blocks. apply in_map_iff. exists (Z.to_nat blk). split; [lia|]. apply in_seq. lia. }
-  apply (check_range_ok 1000 (ERA0 + 1000 * blk) d (E blk Hin)).
-  replace (Z.of_nat 1000) with 1000 by reflexivity.
-  unfold blk, ERA0 in *. lia.
-Qed.
+Definition era_day_ok d : ERA0 <= d < ERA0 + ERA -> civil_chk d = true :=
+  era_day_ok_for civil_chk d era_checked.
 
 Lemma dfc_shift y m d k : days_from_civil (y + 400 * k) m d = days_from_civil y m d + 146097 * k.
 Proof. unfold days_from_civil. destruct (m <=? 2); destruct (m >? 2); lia. Qed.
